@@ -1,0 +1,31 @@
+//go:build verif
+
+// Package verifhook provides yield points for external runtime monitors.
+// It is only active when built with the `verif` build tag.
+package verifhook
+
+import "sync/atomic"
+
+// Func is the callback type invoked at every yield point.
+type Func func(instance, point, detail string)
+
+var cb atomic.Pointer[Func]
+
+// Enabled reports if the hooks are compiled in.
+const Enabled = true
+
+// Set installs the callback (nil removes it).
+func Set(f Func) {
+	if f == nil {
+		cb.Store(nil)
+		return
+	}
+	cb.Store(&f)
+}
+
+// Yield calls the installed callback, if any.
+func Yield(instance, point, detail string) {
+	if f := cb.Load(); f != nil {
+		(*f)(instance, point, detail)
+	}
+}
